@@ -90,14 +90,20 @@ def main():
     cmd = sys.argv[1]
     if cmd == 'verify': return verify(sys.argv[2], sys.argv[3])
     if cmd == 'run': run(sys.argv[2], sys.argv[3:]); return 0
-    if cmd == 'runall':
+    if cmd in ('runall', 'runsome'):
+        # runsome <name>... : run the named changes only and merge their outcome into the existing DETECTION.json
         res = {}
+        only = sys.argv[2:] if cmd == 'runsome' else None
         for name in sorted(os.listdir(os.path.join(ROOT, 'seeded'))):
+            if only is not None and name not in only: continue
             if os.path.exists(os.path.join(ROOT, 'seeded', name, 'patch.diff')):
-                res[name] = run(name, sys.argv[2:])
+                res[name] = run(name, [] if only is not None else sys.argv[2:])
         print('\nSUMMARY'); [print(' ', k, v) for k, v in res.items()]
         # record what the checks reported (exit code, number of VIOLATION lines) for DESIGN.md
         rec = {k: {p: {'exit': v[0], 'violation_lines': v[1]} for p, v in r.items() if isinstance(v, tuple)} for k, r in res.items()}
+        dpath = os.path.join(ROOT, 'seeded', 'DETECTION.json')
+        if only is not None and os.path.exists(dpath):
+            old = json.load(open(dpath))['results']; old.update(rec); rec = dict(sorted(old.items()))
         json.dump({'base_commit': sh(['git', '-C', '/repo', 'rev-parse', '--short', 'HEAD']).stdout.strip(), 'tier': 'quick', 'results': rec},
                   open(os.path.join(ROOT, 'seeded', 'DETECTION.json'), 'w'), indent=1)
         return 0
